@@ -2,6 +2,7 @@ package checks
 
 import (
 	"fmt"
+	"math/big"
 	"math/rand"
 	"runtime"
 
@@ -17,7 +18,7 @@ func init() {
 	register(&Check{
 		ID:    "C19",
 		Title: "Batch helpers and uncompressed form agree with the single-element operations",
-		Rule: "lists of length {0,1,2,W-1,W,W+1,2W-1,2W,2W+1,3W+2,255,256,257,300,random} for the child's NumCPU W in {1,2,3,5,8,16}, drawn from the slots of an element-history engine (all representations, identity class in both members), with pointer patterns {distinct copies, random shared pointers, duplicated pairs, all the same pointer}; " +
+		Rule: "lists of length {0,1,2,W-1,W,W+1,2W-1,2W,2W+1,3W+2,255,256,257,300,random} for the child's NumCPU W in {1,2,3,5,8,16}, drawn from the slots of an element-history engine (all representations, identity class in both members), with pointer patterns {distinct copies, random shared pointers, duplicated pairs, all the same pointer, distinct objects whose Z coordinates multiply to one / are all equal}; " +
 			"ElementsToBytes / BatchToBytesUncompressed / BatchMapToScalarField compared position by position with the single-element calls and the reference; BatchNormalize checked for Z=1, unchanged class, and - with an un-normalisable element (all-zero, or Z=0 with X,Y!=0) at each position - error plus bitwise unchanged list; trusted uncompressed round trip; " +
 			"a class is (helper, length class relative to W, pointer pattern, identity present, NumCPU); non-trivial = non-empty list",
 		Technique:        "reference-model monitor + single-vs-batch differential + bitwise snapshots, under several NumCPU (taskset) values with schedule-perturbation hook H7 at the parallel task start",
@@ -69,11 +70,41 @@ func c19list(g *engine, rng *rand.Rand, n, pattern int) ([]*banderwagon.Element,
 			}
 			store[i] = g.e[j]
 			elems[i] = &store[i]
+		case 4: // normalised elements; relations between the Z coordinates of different elements are set up below
+			store[i] = ElemFromRef(ref.FromAffine(g.sh[j].Affine()), nil, rng.Intn(2) == 0)
+			elems[i] = &store[i]
 		default: // all the same pointer
 			j = 6
 			elems[i] = &copies[j]
 		}
 		shad[i] = g.sh[j]
+	}
+	if pattern == 4 && n >= 2 {
+		// Z coordinates that multiply to one although some of them are not one: an inverse pair, a triple (a, b, 1/ab),
+		// an even number of Z = -1; and Z coordinates that are all equal (their differences vanish)
+		scale := func(i int, l *big.Int) {
+			store[i] = ElemFromRef(ref.FromAffine(shad[i].Affine()), l, rng.Intn(2) == 0)
+		}
+		perm := rng.Perm(n)
+		a, b := randNonZeroP(rng), randNonZeroP(rng)
+		switch k := rng.Intn(4); {
+		case k == 0:
+			scale(perm[0], a)
+			scale(perm[1], ref.InvP(a))
+		case k == 1 && n >= 3:
+			scale(perm[0], a)
+			scale(perm[1], b)
+			scale(perm[2], ref.InvP(ref.MulP(a, b)))
+		case k == 2:
+			m := 2 * (1 + rng.Intn(n/2))
+			for _, i := range perm[:m] {
+				scale(i, ref.NegP(big.NewInt(1)))
+			}
+		default:
+			for i := range store {
+				scale(i, a)
+			}
+		}
 	}
 	for i := range shad {
 		if isIdentityClass(shad[i]) {
@@ -131,13 +162,13 @@ func runC19(c *mon.Ctx) {
 				if n > 60 && rng.Intn(3) != 0 {
 					continue
 				}
-				for pattern := 0; pattern < 4; pattern++ {
+				for pattern := 0; pattern < 5; pattern++ {
 					c19serialisers(c, g, rng, n, pattern, w)
 					c19normalize(c, g, rng, n, pattern, w)
 				}
 			}
 			if h == 0 {
-				c.Sample(map[string]interface{}{"numcpu": w, "list_sizes": sizes, "pointer_patterns": []string{"distinct copies", "random shared pointers", "duplicated pairs", "all the same pointer"}})
+				c.Sample(map[string]interface{}{"numcpu": w, "list_sizes": sizes, "pointer_patterns": []string{"distinct copies", "random shared pointers", "duplicated pairs", "all the same pointer", "relations between Z coordinates"}})
 			}
 		})
 	}
